@@ -100,6 +100,18 @@ MUTANTS = [
     M("slot-created-on-read", SRV, "        if not os.path.isdir(bucketdir):\n            self.add_latency(\"readv\", self._clock.seconds() - start)\n            return {}\n",
       "        if not os.path.isdir(bucketdir):\n            self._allocate_slot_share(bucketdir, (b\"\", b\"\", b\"\"), 0)\n"
       "            self.add_latency(\"readv\", self._clock.seconds() - start)\n            return {}\n", "C24.7"),
+    # ---- C24.8 validate before the first write
+    M("space-check-inside-write-path", MUT, "        length = len(data)\n        precondition(offset >= 0)\n        data_length = self._read_data_length(f)\n        extra_lease_offset",
+      "        length = len(data)\n        precondition(offset >= 0)\n        if self.parent is not None and length > self.parent.get_available_space():\n"
+      "            raise NoSpace()\n        data_length = self._read_data_length(f)\n        extra_lease_offset", "C24.8"),
+    M("repair-validate-sizes-first", SRV, "        remaining_shares = {}\n\n        for sharenum in test_and_write_vectors:",
+      "        remaining_shares = {}\n\n        for sharenum in test_and_write_vectors:\n"
+      "            for (offset, data) in test_and_write_vectors[sharenum][1]:\n"
+      "                if offset + len(data) > MutableShareFile.MAX_SIZE:\n"
+      "                    raise DataTooLargeError()\n\n        for sharenum in test_and_write_vectors:", None,
+      edits=[(SRV, "from allmydata.storage.common import si_b2a, si_a2b, storage_index_to_dir\n",
+              "from allmydata.storage.common import si_b2a, si_a2b, storage_index_to_dir, DataTooLargeError\n")],
+      note="the repair of the C24.8 finding: the rule must accept it (and C23 must still analyse the write loop)"),
     # ---- behaviour-preserving
     M("benign-verdict-renamed", SRV, "        testv_is_good = self._evaluate_test_vectors(", "        ok = self._evaluate_test_vectors(", None,
       edits=[(SRV, "        if testv_is_good:\n", "        if ok:\n"), (SRV, "        return (testv_is_good, read_data)", "        return (ok, read_data)")]),
